@@ -34,6 +34,14 @@ ASSUMPTIONS = [
     "parameters, distance is a cone) occasionally stall: worst 1.2e-5 (scale < 1), 8.1e-5 (scale 1-10), 5e-4 (scale "
     "10-100) in 20 000 creations: tolerance 1e-3 + 1e-2*scale. Created OFF the manifold at distance h the stopping "
     "rule allows sqrt(2e-7*h*max(h, 1)) along the manifold (measured worst 52 % of that): 10x that is added",
+    "placement: clamp set-ups sit 0, 1e3, 1e4 or 1e5 scales from the origin in a general direction (comparisons get "
+    "100*eps*|coordinate| on top). The library finds parameters with finite differences (step 1.5e-8) of a distance "
+    "whose float resolution is eps*|coordinate|: measured on the unchanged tree, creation ON the manifold stays "
+    "within 8e-8*scale up to 1e5 and degrades to 5e-2*scale at 1e6 (so 1e5 is the largest ratio used); creation OFF "
+    "the manifold loses accuracy in proportion to the ratio (1.9e-5 / 2e-4 / 1.8e-3 * scale at 1e3 / 1e4 / 1e5) and is "
+    "therefore exercised up to 1e3 only",
+    "creation near the initial guess: line, plane and surface clamps are also created ON the manifold 1e-6..1e-2 "
+    "scale from the point their initial guess yields (p1, the plane's point, f(0, 0))",
     "a polyline can have two equally close points next to a corner: a reported point on the curve that is as close as "
     "the reference closest point (within the same tolerance) is accepted and labelled closest-point-tie",
     "position for given parameters: 1e-9*(scale + |position|) from the declared point (float noise only)",
@@ -53,6 +61,9 @@ TOL_CREATE_1D = 1e-5  # (abs, and rel to scale) line / plane / curve clamps: mea
 TOL_PARAM = 1e-9
 TOL_LINK = 1e-9
 TOL_ROT = 1e-6
+PLACE_RATIOS = [0.0, 0.0, 1e3, 1e4, 1e5]  # x scale; 1e6 and beyond: the library's own minimiser loses its footing
+PLACE_RATIO_OFF = 1e3  # creation OFF the manifold is only exercised up to here
+EPS = 2.220446049250313e-16
 HALF_TURN_OFFSETS = [0.0, 1e-9, 1e-6, 1e-4, 1e-3]
 
 # --------------------------------------------------------------------------------------------------
@@ -67,6 +78,8 @@ def clamp_case(spec, allow_off=True):
         {
             "logs": st.floats(-1.0, 2.0),
             "anchor": xm.vec3,
+            # the whole set-up sits this many scales from the origin, in a general direction
+            "place": st.fixed_dictionaries({"dir": xm.vec3, "ratio": st.sampled_from(PLACE_RATIOS)}),
             "m": spec,
             "off": st.one_of(st.none(), off) if allow_off else st.none(),
             "params": st.lists(st.lists(_frac, min_size=3, max_size=3), min_size=1, max_size=4),
@@ -98,6 +111,12 @@ def _params(man: xm.Manifold, fracs, s: float):
 def check_clamp(case, ctx: Ctx) -> None:
     s = 10.0 ** case["logs"]
     anchor = 3.0 * s * np.asarray(case["anchor"], float)
+    place = dict(case.get("place") or {"ratio": 0.0})
+    if case["off"] is not None:
+        place["ratio"] = min(place["ratio"], PLACE_RATIO_OFF)
+    if place["ratio"]:
+        anchor = anchor + place["ratio"] * s * unit(xm.fix_vec(place["dir"]))
+    coord_noise = 100 * EPS * float(np.max(np.abs(anchor)) + s)  # float64 resolution of the coordinates themselves
     spec = case["m"]
     man = xm.build(spec, anchor, s)
     off = case["off"]
@@ -117,6 +136,7 @@ def check_clamp(case, ctx: Ctx) -> None:
         tol = TOL_CREATE_ABS + TOL_CREATE_REL * s
     else:
         tol = TOL_CREATE_1D * (1.0 + s)
+    tol += coord_noise
     want = p if off is None else man.closest(p)
     if want is not None:
         if off is not None:
@@ -169,6 +189,9 @@ def check_clamp(case, ctx: Ctx) -> None:
     dirs = [v for k, v in spec.items() if k in ("dir", "normal", "a")]
     ctx.nt(not any(xm.aligned(d) for d in dirs) and float(np.linalg.norm(anchor)) > 0)
     ctx.label("created-on" if off is None else "created-off", "bounded" if man.bounded else "unbounded")
+    ctx.label("placed-at=%g" % place["ratio"])
+    if spec.get("near_guess") is not None:
+        ctx.label("created-near-initial-guess")
     if kind in ("curve", "circle", "polyline"):
         ctx.label("curve=" + kind)
 
@@ -315,15 +338,15 @@ def check_link(kind: str):
 CELLS = [
     Cell("C17/clamp/free", clamp_case(xm.spec_free(), allow_off=False), check_clamp, 60, 1500,
          "FreeClamp reports its creation position"),
-    Cell("C17/clamp/line", clamp_case(xm.spec_line(1.5)), check_clamp, 250, 3000,
+    Cell("C17/clamp/line", clamp_case(xm.spec_line(1.5, near_guess=True)), check_clamp, 250, 3000,
          "LineClamp with and without bounds: creation on / off the segment, positions p1 + t*unit(p2 - p1)"),
     Cell("C17/clamp/radial", clamp_case(xm.spec_radial(1.5), allow_off=False), check_clamp, 200, 2500,
          "RadialClamp with and without bounds: same radius and height about the axis, arc-length parameter"),
-    Cell("C17/clamp/plane", clamp_case(xm.spec_plane()), check_clamp, 200, 2500,
+    Cell("C17/clamp/plane", clamp_case(xm.spec_plane(near_guess=True)), check_clamp, 200, 2500,
          "PlaneClamp: creation on / off the plane (orthogonal projection), n.(x - p) = 0 for any parameters"),
     Cell("C17/clamp/curve", clamp_case(st.one_of(xm.spec_curve(1.0), xm.spec_circle(1.5), xm.spec_polyline())),
          check_clamp, 300, 3000, "CurveClamp on an analytic parabola, a CircleCurve arc, a LinearInterpolatedCurve"),
-    Cell("C17/clamp/surface", clamp_case(xm.spec_surface(1.0)), check_clamp, 200, 2000,
+    Cell("C17/clamp/surface", clamp_case(xm.spec_surface(1.0, near_guess=True)), check_clamp, 200, 2000,
          "ParametricSurfaceClamp on a saddle patch with / without bounds and initial parameters"),
     Cell("C17/link/translation", link_case("translation"), check_link("translation"), 200, 2000,
          "follower = leader + original offset; leader bit-identical after update()"),
